@@ -1,22 +1,12 @@
 /-
 Helper lemmas for M0/M1 (association maps, wiring, router).
+
+The well-formedness predicates (`DictWF`, `Wiring.WF`, `InvWiring.WF`, `Wiring.OneSource`)
+and the association-list library live in `RouterAssoc`; the conversions and `route` in
+`RouterWiring`; components / trees in `RouterTree`; the BFS in `RouterBfs`.  This file
+re-exports them.
 -/
-import TickitModel.Core.Router
-
-namespace Tickit
-
-/-- a Python dict: keys are unique. -/
-def DictWF {κ β : Type} (m : List (κ × β)) : Prop := (akeys m).Nodup
-
-/-- a `Wiring` as Python holds it: dict of dicts of sets. -/
-def Wiring.WF (w : Wiring) : Prop :=
-  DictWF w ∧ ∀ e ∈ w, DictWF e.2 ∧ ∀ pe ∈ e.2, pe.2.Nodup
-
-def InvWiring.WF (iw : InvWiring) : Prop :=
-  DictWF iw ∧ ∀ e ∈ iw, DictWF e.2
-
-/-- each input port has at most one source. -/
-def Wiring.OneSource (w : Wiring) : Prop :=
-  ∀ a p a' p' b q, w.Conn a p b q → w.Conn a' p' b q → a = a' ∧ p = p'
-
-end Tickit
+import TickitModel.Lemmas.RouterAssoc
+import TickitModel.Lemmas.RouterWiring
+import TickitModel.Lemmas.RouterTree
+import TickitModel.Lemmas.RouterBfs
